@@ -19,8 +19,9 @@ B(o, a, b) == [k |-> "bin", op |-> o, a |-> a, b |-> b]
 
 cMenu == {B("*", R("a"), L(2)), B("+", R("a"), L(1)), B("+", R("n.x"), R("n.y")), R("n.x"), [k |-> "tot", c |-> "n"]}
 
-cTaskSpec == [t \in {"F1", "K1"} |->
-   IF t = "F1" THEN [kind |-> "fn", deps |-> {"a", "n.x"}, targets |-> {"b"}, out |-> "b", ins |-> <<"a", "n.x">>]
+cTaskSpec == [t \in {"F1", "K1", "O1"} |->
+   IF t = "O1" THEN [kind |-> "obs", deps |-> {"a"}, targets |-> {}]
+   ELSE IF t = "F1" THEN [kind |-> "fn", deps |-> {"a", "n.x"}, targets |-> {"b"}, out |-> "b", ins |-> <<"a", "n.x">>]
    ELSE [kind |-> "knob", src |-> "a", deps |-> {"a"}, targets |-> {"b", "n.y"}, tl |-> <<"b", "n.y">>, w |-> <<2, 3>>]]
 
 cIpOps == {"+"}
